@@ -7,6 +7,19 @@ fn stub_format(_args: std::fmt::Arguments<'_>) -> String {
     String::new()
 }
 
+/// If a change makes `build()` ACCEPT an unsupported combination, the accepting path constructs the
+/// shared `State` (HashMap / IndexMap / 254 hops), which CBMC cannot get through in reasonable time:
+/// the counterexample would show up as a timeout instead of a violation.  The state constructor is
+/// therefore cut to an empty `State` and the hasher keys made arbitrary (the OS random source is a
+/// syscall); neither is read by the validation this harness is about.
+fn stub_state_new(_cfg: crate::config::StateConfig) -> crate::state::State {
+    crate::state::State::default()
+}
+fn stub_random_state_new() -> std::hash::RandomState {
+    let keys: (u64, u64) = (kani::any(), kani::any());
+    unsafe { std::mem::transmute::<(u64, u64), std::hash::RandomState>(keys) }
+}
+
 fn any_protocol() -> Protocol {
     match kani::any::<u8>() % 3 {
         0 => Protocol::Icmp,
@@ -39,6 +52,8 @@ fn any_port_direction() -> PortDirection {
 #[kani::proof]
 #[kani::unwind(3)]
 #[kani::stub(alloc::fmt::format, stub_format)]
+#[kani::stub(crate::state::State::new, stub_state_new)]
+#[kani::stub(std::hash::RandomState::new, stub_random_state_new)]
 fn c16_builder_rejects_unsupported() {
     let protocol = any_protocol();
     let strategy = any_multipath();
